@@ -1,6 +1,6 @@
-"""T-NAMEINDEX: a position looked up by equality - np.argmax(A == key), np.where(A == key)[0][0], np.flatnonzero(A == key)[0] -
-is only the position of `key` when `key` occurs in A.  np.argmax of an all-False mask is 0 (and the other two raise or pick
-garbage), so an unguarded lookup silently addresses whatever sits first.  The lookup must be guarded by a membership test
+"""T-NAMEINDEX: a position looked up by equality with np.argmax(A == key) is only the position of `key` when `key` occurs in A.
+np.argmax of an all-False mask is 0, so an unguarded lookup silently addresses whatever sits first.  (The other idioms -
+list.index(key), np.where(A == key)[0][0], np.flatnonzero(A == key)[0] - raise for a missing key and need no guard.)  The lookup must be guarded by a membership test
 over the same operands: `key in A`, `np.any(A == key)`, `(A == key).any()`, `np.isin(key, A)`, `np.count_nonzero(A == key)`
 - as an enclosing `if`, or as an earlier `if not <test>: return/raise/continue` in an enclosing block.
 list.index(key) raises for a missing key and needs no guard."""
@@ -23,8 +23,12 @@ def lookups(func, defs=None):
     defs = defs or {}
     out = []
     for n in ast.walk(func):
-        if isinstance(n, ast.Call) and U.call_name(n) in ('np.argmax', 'np.flatnonzero', 'np.where', 'np.nonzero', 'np.argwhere') and len(n.args) == 1 and not (U.call_name(n) == 'np.where' and len(n.args) != 1):
+        a = None
+        if isinstance(n, ast.Call) and U.call_name(n) in ('np.argmax', 'numpy.argmax') and len(n.args) >= 1:
             a = n.args[0]
+        elif isinstance(n, ast.Call) and isinstance(n.func, ast.Attribute) and n.func.attr == 'argmax' and not n.args and U.call_name(n) not in ('np.argmax', 'numpy.argmax'):
+            a = n.func.value        # (A == key).argmax()
+        if a is not None:
             if isinstance(a, ast.Name) and a.id in defs:
                 a = defs[a.id]
             ops = _eq_operands(a)
